@@ -16,10 +16,11 @@ inductive RtrMsg where
   | endOfData (sid serial refresh retry expire : Nat)
   | cacheReset
   | errorReport (code : Nat)
+  | unsupported (ty : Nat)
   deriving DecidableEq, Repr, Inhabited
 
-/-- the body of one PDU type, read from the cursor right after the 8-byte header
-    (`none` = a `?` on a short read, or an unknown type) -/
+/-- `Message::parse` after the header: the body of one PDU type read from the cursor right after the
+    8-byte header (`none` = a `?` on a short read) -/
 def rtrBody (version ty session : Nat) (body : Bytes) : Option RtrMsg :=
   if ty = 0 then (takeN body 4).map fun (x, _) => .serialNotify session (be x)
   else if ty = 1 then (takeN body 4).map fun (x, _) => .serialQuery session (be x)
@@ -38,10 +39,10 @@ def rtrBody (version ty session : Nat) (body : Bytes) : Option RtrMsg :=
     else (takeN body 4).map fun (x, _) => .endOfData session (be x) 0 0 0
   else if ty = 8 then some .cacheReset
   else if ty = 10 then some (.errorReport session)
-  else none
+  else some (.unsupported ty)
 
-/-- `Message::from_bytes`: the message and the declared length; `none` = `Err(_)` -/
-def rtrFromBytes (buf : Bytes) : Option (RtrMsg × Nat) :=
+/-- `Message::parse(buf)` (`buf` is exactly one PDU): message and declared length; `none` = `Err(_)` -/
+def rtrParse (buf : Bytes) : Option (RtrMsg × Nat) :=
   match takeN buf 8 with
   | none => none
   | some (h, body) =>
@@ -52,12 +53,60 @@ def rtrFromBytes (buf : Bytes) : Option (RtrMsg × Nat) :=
       if length > buf.length then none
       else (rtrBody version ty session body).map fun m => (m, length)
 
-/-- `RtrCodec::decode`: `Ok(Some(m))` with the bytes removed, or `Ok(None)`.
-    `src.split_to(len)` panics when `len > src.len()`. -/
-def rtrDecode (src : Bytes) : Out (Option (RtrMsg × Nat)) :=
-  match rtrFromBytes src with
-  | some (m, len) => if len ≤ src.length then .ok (some (m, len)) else .panic
-  | none => .ok none
+/-- one `RtrCodec::decode` call -/
+inductive RtrRes where
+  | more
+  | pdu (m : RtrMsg) (n : Nat)
+  | err
+  | panic
+  deriving DecidableEq, Repr
+
+/-- the fixed size of the fixed-size PDU types -/
+def rtrExpected (version ty : Nat) : Option Nat :=
+  if ty = 0 ∨ ty = 1 then some 12
+  else if ty = 2 ∨ ty = 3 ∨ ty = 8 then some 8
+  else if ty = 4 then some 20
+  else if ty = 6 then some 32
+  else if ty = 7 then some (if version ≥ 1 then 24 else 12)
+  else none
+
+/-- the header-only part of `Message::from_bytes` (as repaired) -/
+inductive RtrFrame where
+  | more
+  | err
+  | frame (length : Nat)
+  deriving DecidableEq, Repr
+
+def rtrBadLen (version ty length : Nat) : Bool :=
+  match rtrExpected version ty with
+  | some e => e != length
+  | none => false
+
+/-- frames on the header alone and rejects impossible lengths; `buf[i]` indexing is explicit -/
+def rtrFrame (src : Bytes) : Out RtrFrame :=
+  if src.length < 8 then .ok .more
+  else do
+    let version ← rd8 src 0
+    let ty ← rd8 src 1
+    let length ← rd32 src 4
+    if length < 8 ∨ length > 65535 then .ok .err
+    else if rtrBadLen version ty length then .ok .err
+    else if length > src.length then .ok .more
+    else .ok (.frame length)
+
+/-- `Message::from_bytes` followed by `RtrCodec::decode`'s `split_to(len)` (panics when `len > src.len()`) -/
+def rtrDecode (src : Bytes) : RtrRes :=
+  match rtrFrame src with
+  | .ok .more => .more
+  | .ok .err => .err
+  | .ok (.frame length) =>
+      match slice src 0 length with
+      | .ok pdu =>
+          match rtrParse pdu with
+          | some (m, len) => if len ≤ src.length then .pdu m len else .panic
+          | none => .err
+      | _ => .panic
+  | _ => .panic
 
 /-! ## BFD control packet (RFC 5880) -/
 
